@@ -99,6 +99,9 @@ func newTallySet(name string, quick bool) *tallySet {
 	if !quick {
 		add(entryKind{Name: "X01", Pub: v0.pub, Sig: nodeSign("V1", ts.Msg), Signer: -1, WellFormed: true, Claims: 0})
 	}
+	if v0.pub[31] == 0 || s0[63] == 0 {
+		core.Fatal("fixture keys unsuitable: a trailing zero byte would make a truncated encoding equal to the genuine one after zero padding")
+	}
 	add(entryKind{Name: "PS", Pub: v0.pub[:31], Sig: s0, Signer: -1, Claims: -1})                           // pubkey one byte short: not V0's key
 	add(entryKind{Name: "PL", Pub: append(append([]byte{}, v0.pub...), 0), Sig: s0, Signer: 0, Claims: -1}) // pubkey one byte long
 	add(entryKind{Name: "SS", Pub: v0.pub, Sig: s0[:32], Signer: -1, Claims: 0})                            // half a signature
